@@ -248,6 +248,29 @@ Proof.
   - now apply ext_same_toks.
 Qed.
 
+(* the mints of an implicit / hybrid authorization response *)
+Lemma mint_if_ok b s gi cls mx mints e s' o :
+  mint_if b s gi cls mx mints e = Ok (s', o) ->
+  (b = false /\ s' = s /\ o = None) \/ (exists id, b = true /\ o = Some id /\ mint s gi cls None None mx mints e = Ok (s', id)).
+Proof.
+  unfold mint_if. destruct b; [|intros H; inversion H; auto].
+  destruct (mint s gi cls None None mx mints e) as [[s2 id]| |] eqn:Hm; intros H; inversion H; subst. right. eauto.
+Qed.
+Lemma mint_if_ext b s gi cls mx mints e s' o : mint_if b s gi cls mx mints e = Ok (s', o) -> ext s s'.
+Proof.
+  intros H. apply mint_if_ok in H as [(_&->&_)|(id&_&_&Hm)]; [apply ext_refl|eapply mint_ext; eauto].
+Qed.
+Lemma authorize_rt_ext c s u cl sc wc wt wi : ext s (fst (do_authorize_rt c s u cl sc wc wt wi)).
+Proof.
+  unfold do_authorize_rt. cbv zeta.
+  repeat match goal with
+         | |- context [mint_if ?b ?s0 ?gi ?cls ?mx ?mi ?e] =>
+             let H := fresh "Hm" in destruct (mint_if b s0 gi cls mx mi e) as [[? ?]| |] eqn:H; [apply mint_if_ext in H|..]
+         end; cbn [fst];
+    repeat match goal with H : ext ?a ?b |- ext _ ?b => eapply ext_trans; [|exact H]; clear H end;
+    now apply ext_same_toks.
+Qed.
+
 Lemma step_ext c s o : ext s (fst (step c s o)).
 Proof.
   destruct o; cbn [step].
@@ -276,6 +299,7 @@ Proof.
     destruct (in_user g s (t_grant t)); eauto using tok_le_refl, tok_le_revoke.
   - now apply ext_same_toks.
   - (* AuthorizeCookie *) apply authorize_cookie_ext.
+  - (* AuthorizeRT *) apply authorize_rt_ext.
 Qed.
 
 Lemma run_ext c ops : forall s, ext s (fst (run c s ops)).
@@ -302,4 +326,19 @@ Proof.
   replace (length (toks s) - length (match based with Some b => upd_nth b (add_used 1) (toks s) | None => toks s end))%nat with O
     by (destruct based; rewrite ?len_upd; lia).
   cbn. repeat split; auto. intros Hsc. destruct sc; [reflexivity|contradiction].
+Qed.
+
+(* the token a successful mint without based_on and without a scope argument appends: it carries the grant's scope *)
+Lemma mint_root_new s gi cls mx mints e s' id :
+  mint s gi cls None None mx mints e = Ok (s', id) ->
+  exists tn g, tget id s' = Some tn /\ nth_error (grants s) gi = Some g /\ t_grant tn = gi /\ t_cls tn = cls /\
+               t_based tn = None /\ t_scope tn = g_scope g.
+Proof.
+  unfold mint. destruct (nth_error (grants s) gi) as [g|] eqn:Eg; [|discriminate].
+  destruct (grant_active (now s) g) eqn:Ea; cbn [negb]; [|discriminate]. cbn [bind].
+  intros H; inversion H; subst; clear H. unfold tget; cbn.
+  exists (mkTok gi cls None 0 (match cls with Code => Some 1 | _ => mx end)
+                (match cls, mints with Code, None => Some [Access; Refresh; IdTok] | Refresh, None => Some [Access; Refresh] | _, m => m end)
+                false (if e =? 0 then 0 else now s + e) (g_scope g)), g.
+  rewrite nth_error_app2 by lia. rewrite Nat.sub_diag. cbn. repeat split; auto.
 Qed.
